@@ -34,7 +34,10 @@ def insert_noise(rng, src, n):
     for _ in range(n):
         k = rng.choice(kinds)
         els = [e for e in root.iter() if isinstance(e.tag, str) and etree.QName(e).localname not in ("text", "tspan", "textPath", "stop")]
-        target = rng.choice(els)
+        # noise inside a gradient (its stops may be inherited through href only while it has no child of its own) and
+        # inside a clipPath (every child is taken for a shape) is where a late or missing clean-up shows
+        special = [e for e in els if etree.QName(e).localname in ("linearGradient", "radialGradient", "clipPath")]
+        target = rng.choice(special) if special and rng.random() < 0.3 else rng.choice(els)
         pos = rng.randint(0, len(target))
         if k == "comment":
             target.insert(pos, etree.Comment(" noise "))
